@@ -6,6 +6,7 @@ import (
 	"net"
 	"net/netip"
 	"sort"
+	"time"
 
 	"github.com/miekg/dns"
 	"github.com/semihalev/sdns/config"
@@ -124,3 +125,13 @@ func VerifC07GlueCached(r *Resolver, name string) (v4, v6 []netip.Addr) {
 
 // VerifC07SearchAddrs exposes searchAddrs.
 func VerifC07SearchAddrs(msg *dns.Msg) ([]netip.Addr, bool) { return searchAddrs(msg) }
+
+// VerifC07AgeBreaker moves every circuit-breaker failure timestamp d into the
+// past (emulated clock: the 30 s disable window has run out).
+func VerifC07AgeBreaker(r *Resolver, d time.Duration) {
+	r.circuitBreaker.mu.RLock()
+	defer r.circuitBreaker.mu.RUnlock()
+	for _, sf := range r.circuitBreaker.failures {
+		sf.lastFailure.Store(sf.lastFailure.Load() - int64(d/time.Second))
+	}
+}
